@@ -369,6 +369,13 @@ class FormulaManager(object):
           - (Optionally) a mpq or mpz object
         """
         # TODO could this be improved by storing only the relative Fraction (or int maybe) in the real_constants dict?
+        # The type of value is validated before looking it up in the
+        # cache: e.g., True == 1 == 1.0 are the same dictionary key
+        if not (is_pysmt_fraction(value) or isinstance(value, tuple) or
+                is_python_rational(value)):
+            raise PysmtTypeError("Invalid type in constant. The type was:" + \
+                                 str(type(value)))
+
         if value in self.real_constants:
             return self.real_constants[value]
 
@@ -390,6 +397,12 @@ class FormulaManager(object):
 
     def Int(self, value: int) -> FNode:
         """Return a constant of type INT."""
+        # The type of value is validated before looking it up in the
+        # cache: e.g., 1 == 1.0 == True are the same dictionary key
+        if not (is_pysmt_integer(value) or is_python_integer(value)):
+            raise PysmtTypeError("Invalid type in constant. The type was:" + \
+                                 str(type(value)))
+
         if value in self.int_constants:
             return self.int_constants[value]
 
